@@ -31,6 +31,16 @@ pub const ZONES: &[&str] = &["UTC", "Asia/Kolkata", "Etc/GMT+5", "Europe/Paris",
 pub fn tz_of(s: &str) -> Option<TimeZone> {
     if s == "local" { Some(TimeZone::Local) } else { TimeZone::parse(s) }
 }
+/// `TimeZone::parse` as the stdlib applies it to a `timezone:` argument ("" and "local" = Local)
+pub fn tz_of_arg(s: &str) -> Option<TimeZone> {
+    TimeZone::parse(s)
+}
+/// the chrono observations for `Conversion::timestamp(format, tz)` applied to `bytes`
+pub fn timestamp_observations(format: &str, bytes: &[u8], tz: &str) -> String {
+    let Some(t) = tz_of(tz) else { return "-".into() };
+    let conv = Conversion::timestamp(format, t);
+    observations(&conv, bytes, tz).into_iter().next().unwrap_or_else(|| "-".into())
+}
 pub fn tz_name(tz: &TimeZone) -> String {
     match tz {
         TimeZone::Local => "local".into(),
